@@ -242,10 +242,15 @@ def obs_stim(h, ex=None):
 
 def obs_openql(h, ex=None):
     L = _L()
-    p = L.to_openql(h.obj)
     if WORLD.real_openql:
         from sim import realql
+        saved = realql._silence()
+        try:
+            p = L.to_openql(h.obj)
+        finally:
+            realql._restore(saved)
         return realql.describe(p)
+    p = L.to_openql(h.obj)
     return {"prog": p.name, "items": p.items}
 
 
